@@ -1033,3 +1033,82 @@ End BENHAM.
 Theorem smith_benham votes c : wf_votes votes = true -> pairwise votes <> [] ->
   benham true votes = H_ok [Cand c] -> In c (smith_schwartz (pairwise votes) true).
 Proof. intros Hwf Hne. exact (smith_benham_sec votes Hwf Hne c). Qed.
+
+(* ------------------------------------------------------------------ the fuel of the elimination loops suffices *)
+Lemma gnb_length (tot : list (C * Q)) n : (1 <= n)%nat -> (n < length tot)%nat -> length (get_n_best Qle_bool tot n) = n.
+Proof.
+  intros H1 Hlt.
+  destruct (get_n_best_spec Qle_bool Qle_bool_total Qle_bool_trans tot n H1) as [_ H]. specialize (H Hlt).
+  destruct H as (above & level & below & thr & _ & _ & _ & _ & _ & Hpos & Heq & Htie).
+  destruct (Nat.eq_dec (length above + length level) n) as [E|E].
+  - rewrite (Heq E), map_length, app_length. exact E.
+  - assert (Hgt : (n < length above + length level)%nat) by lia. rewrite (Htie Hgt), app_length, map_length, repeat_length. lia.
+Qed.
+Lemma plain_length (r : list (res C)) : (length (plain r) <= length r)%nat.
+Proof. unfold plain. induction r as [|[c|l] r IH]; simpl; lia. Qed.
+
+Lemma elim_length cur rem : wf_votes cur = true -> eliminate_one cur = Some rem ->
+  (length (plain rem) < length (all_ranked_candidates (qv cur)))%nat.
+Proof.
+  intros Hwf He. unfold eliminate_one in He. pose proof (totals_keys cur Hwf) as Hk.
+  set (K := all_ranked_candidates (qv cur)) in *. set (tot := some_totals (totals (initial_allocation (qv cur)))) in *.
+  destruct (length K) as [|[|m]] eqn:El; [discriminate| |].
+  - injection He as <-. cbn. lia.
+  - injection He as <-.
+    assert (Hlen : length tot = S (S m)) by (rewrite <- El, <- Hk, map_length; reflexivity).
+    pose proof (plain_length (get_n_best Qle_bool tot (S m))) as Hp. rewrite (gnb_length tot (S m)) in Hp; lia.
+Qed.
+
+Lemma arc_subset_le S votes (L : list C) : (forall x, In x S -> In x (cands_of votes) -> In x L) ->
+  (length (all_ranked_candidates (qv (subset_votes S votes))) <= length L)%nat.
+Proof.
+  intros H. apply NoDup_incl_length; [apply arc_nodup|]. intros x Hx. apply arc_iff, subset_cands in Hx. apply H; tauto.
+Qed.
+
+Lemma benham_loop_fuel fx votes0 : wf_votes votes0 = true -> forall fuel cur, wf_votes cur = true ->
+  (length (all_ranked_candidates (qv cur)) < fuel)%nat -> benham_loop fx fuel votes0 cur <> H_fuel.
+Proof.
+  intros Hwf0. induction fuel as [|f IH]; intros cur Hwf Hlt; [lia|].
+  rewrite benham_loop_S. destruct (condorcet_winner (pairwise cur)); [|discriminate].
+  destruct (eliminate_one cur) as [rem|] eqn:Ee; [|discriminate].
+  pose proof (elim_length cur rem Hwf Ee) as Hl.
+  assert (Hnext : benham_loop fx f votes0 (subset_votes (plain rem) votes0) <> H_fuel).
+  { apply IH; [apply subset_wf, Hwf0|].
+    pose proof (arc_subset_le (plain rem) votes0 (plain rem) (fun x H _ => H)). lia. }
+  destruct rem as [|r [|r2 rr]]; [|discriminate|]; (destruct (fx && has_tie _); [discriminate|exact Hnext]).
+Qed.
+
+Theorem benham_fuel fx votes : wf_votes votes = true -> benham fx votes <> H_fuel.
+Proof. intros Hwf. unfold benham. apply benham_loop_fuel; [exact Hwf|exact Hwf|lia]. Qed.
+
+Lemma tier_fuel fx : forall fuel round, wf_votes round = true ->
+  (length (all_ranked_candidates (qv round)) < fuel)%nat -> tideman_tier fx fuel round <> inr H_fuel.
+Proof.
+  induction fuel as [|f IH]; intros round Hwf Hlt; [lia|].
+  destruct round as [|bw t]; [discriminate|]. set (round := bw :: t) in *.
+  assert (Hne : round <> []) by (unfold round; discriminate). clearbody round.
+  assert (Hgen : forall sset, match eliminate_one (subset_votes sset round) with
+                 | None => inr H_index
+                 | Some rem => if fx && has_tie rem then inr H_nie
+                               else match rem with [r0] => inl r0 | _ => tideman_tier fx f (subset_votes (plain rem) (subset_votes sset round)) end
+                 end <> @inr (res C) hres H_fuel).
+  { intros sset. set (round1 := subset_votes sset round). pose proof (subset_wf sset round Hwf) as Hwf1. fold round1 in Hwf1.
+    destruct (eliminate_one round1) as [rem|] eqn:Ee; [|discriminate].
+    pose proof (elim_length round1 rem Hwf1 Ee) as Hl.
+    assert (Hle1 : (length (all_ranked_candidates (qv round1)) <= length (all_ranked_candidates (qv round)))%nat).
+    { apply arc_subset_le. intros x _ Hx. apply arc_iff, Hx. }
+    assert (Hnext : tideman_tier fx f (subset_votes (plain rem) round1) <> inr H_fuel).
+    { apply IH; [apply subset_wf, Hwf1|]. pose proof (arc_subset_le (plain rem) round1 (plain rem) (fun x H _ => H)). lia. }
+    destruct (fx && has_tie rem); [discriminate|]. destruct rem as [|r0 [|r1 rr]]; [exact Hnext|discriminate|exact Hnext]. }
+  rewrite (tideman_tier_unfold fx f round Hne).
+  destruct (smith_schwartz (pairwise round) true) as [|s [|s2 ss]]; [apply Hgen|discriminate|apply Hgen].
+Qed.
+
+Theorem tideman_fuel fx votes n : wf_votes votes = true -> tideman_alt fx votes n <> H_fuel.
+Proof.
+  intros Hwf. unfold tideman_alt.
+  destruct (tideman_tier fx (S (S (length (all_ranked_candidates (qv votes))))) votes) as [[w|l]|e] eqn:Et.
+  - destruct (cmem w _); [destruct (_ || _)|]; discriminate.
+  - discriminate.
+  - intros ->. apply (tier_fuel fx _ votes Hwf) in Et; [exact Et|lia].
+Qed.
